@@ -262,6 +262,10 @@ def canonical_variant_functions(crate):
     for b in crate.fns():
         mins = [c for c in b.all_calls() if c.callee and c.callee.name in ("min_by_key", "min_by", "min")]
         if not mins:
+            # the minimum written as a loop: an order comparison between two keys that both come from weak shapes
+            mins = [c for c in b.all_calls() if c.callee and c.callee.name in ("lt", "le", "gt", "ge", "cmp", "partial_cmp") and len(c.args) == 2
+                    and all(role_mentions_call(c.body.role_of_operand(a), "weak_shape") for a in c.args)]
+        if not mins:
             continue
         ws = [c for c in b.all_calls() if c.callee and c.callee.name == "weak_shape"]
         var = [c for c in b.all_calls() if c.callee and "variants" in (c.callee.name or "")]
